@@ -177,6 +177,7 @@ package compactindexsized
 //@   mode int
 //@   requires stream != nil
 //@   ensures result1 == nil ==> validDB(result0) && fresh(result0)
+//@   ensures result1 == nil ==> result0.Header.Metadata != nil
 //@   ensures result1 != nil ==> result1 != ErrNotFound
 
 //@ func (*DB) GetBucket
@@ -201,7 +202,12 @@ package compactindexsized
 //@   ensures result1 == nil ==> result0 != nil && fresh(result0)
 //@   ensures result1 == nil ==> 1 <= result0.Header.ValueSize && result0.Header.ValueSize <= 252 && result0.Header.ValueSize == uint64(valueSizeBytes)
 //@   ensures result1 == nil && numItems <= 40000000000000 ==> result0.Header.NumBuckets >= 1 && len(result0.buckets) == int(result0.Header.NumBuckets)
-//@   loop 0 invariant forall k int :: 0 <= k && k < len(closers) ==> closers[k] != nil
+//@   ensures result1 == nil ==> result0.Header.Metadata != nil && fresh(result0.Header.Metadata) && len(result0.Header.Metadata.KeyVals) == 0
+//@   loop 0 invariant forall k int :: 0 <= k && k < len(closers) ==> closers[k] != nil && fresh(closers[k])
+
+//@ func (*Builder) Metadata
+//@   mode int
+//@   ensures result == b.Header.Metadata
 
 //@ func (*tempBucket) writeTuple
 //@   mode int
